@@ -5,6 +5,7 @@ import Driver.Ops.Real
 import Driver.Ops.OidTime
 import Driver.Ops.Fixer
 import Driver.Ops.CRange
+import Driver.Ops.Unber
 open Driver
 
 def handlers : List Handler := [
@@ -12,7 +13,8 @@ def handlers : List Handler := [
   Driver.Ops.Real.run,
   Driver.Ops.OidTime.run,
   Driver.Ops.Fixer.run,
-  Driver.Ops.CRange.run
+  Driver.Ops.CRange.run,
+  Driver.Ops.Unber.run
 ]
 
 def step (line : String) : String :=
